@@ -74,6 +74,7 @@ type ConnPlan struct {
 	CloseAtAccept bool          // close right after accept
 	StallAccept   chan struct{} // if non-nil: wait for it (or peer close) before the handshake
 	QueryErr      []byte        // ERR payload in answer to the first COM_QUERY
+	OnQuery       func(n int)   // called with the 1-based number of each COM_QUERY before it is answered
 	AuthErr       []byte        // ERR payload in answer to the handshake response
 
 	// OnDump builds the dump script from the decoded request.
@@ -384,6 +385,17 @@ func (p *ConnPlan) serve(c net.Conn) {
 			p.mu.Lock()
 			p.Commands = append(p.Commands, cmd)
 			p.mu.Unlock()
+			if p.OnQuery != nil {
+				p.mu.Lock()
+				nq := 0
+				for _, x := range p.Commands {
+					if x.Code == 0x03 {
+						nq++
+					}
+				}
+				p.mu.Unlock()
+				p.OnQuery(nq)
+			}
 			if firstQuery && p.QueryErr != nil {
 				writePacket(c, 1, p.QueryErr)
 			} else {
